@@ -6,6 +6,7 @@ broken) and emitted as an empty default so the file still compiles; the Bridge
 obligation for that item then fails.
 """
 import ast
+import json
 import os
 import re
 import sys
@@ -1096,9 +1097,10 @@ SRC_GROUPS = {
                ('gemato/recursiveloader.py', 'ManifestRecursiveLoader', 'set_timestamp'),
                ('gemato/recursiveloader.py', 'ManifestRecursiveLoader', 'load_unregistered_manifests'),
                ('gemato/recursiveloader.py', 'ManifestRecursiveLoader', 'update_entries_for_directory'),
-               ('gemato/compression.py', None, 'open_potentially_compressed_path'),
-               ('gemato/compression.py', None, 'get_potential_compressed_names'),
-               ('gemato/compression.py', None, 'get_compressed_suffix_from_filename')],
+               ],
+    'codec': [('gemato/compression.py', None, 'open_potentially_compressed_path'),
+              ('gemato/compression.py', None, 'get_potential_compressed_names'),
+              ('gemato/compression.py', None, 'get_compressed_suffix_from_filename')],
     'findtop': [('gemato/find_top_level.py', None, 'find_top_level_manifest')],
     'hash': [('gemato/hash.py', None, 'get_hash_by_name'), ('gemato/hash.py', None, 'hash_file'),
              ('gemato/hash.py', None, 'hash_path'), ('gemato/manifest.py', None, 'manifest_hashes_to_hashlib')],
@@ -1127,6 +1129,28 @@ def _srcsnap(o):
         for fl, cls, fn in items:
             nm = f'src_{grp}_' + (cls + '_' if cls else '') + fn.strip('_')
             o.item(nm, 'List (List Nat)', (lambda fl=fl, cls=cls, fn=fn: body(fl, cls, fn)), '[]')
+
+    # everything else of the code base (tools/enumerate_src.py -> src_items.json): the remaining functions and methods, and the
+    # class- and module-level statements (attributes, patterns, tables, imports) of every module
+    def attrs(fl, cls):
+        if fl not in cache:
+            cache[fl] = _src(fl)
+        node = cache[fl]
+        if cls is not None:
+            node = next(n for n in cache[fl].body if isinstance(n, ast.ClassDef) and n.name == cls)
+        sts = [st for st in node.body if not isinstance(st, (ast.FunctionDef, ast.ClassDef))
+               and not (isinstance(st, ast.Expr) and isinstance(getattr(st, 'value', None), ast.Constant) and isinstance(st.value.value, str))]
+        head = [lstr('class(' + ', '.join(ast.unparse(b) for b in node.bases) + '):')] if cls is not None else []
+        return llist(head + [lstr(x) for st in sts for x in _u(st).split('\n')])
+    ip = os.path.join(os.path.dirname(os.path.abspath(__file__)), 'src_items.json')
+    if os.path.isfile(ip):
+        for grp, fl, cls, fn in json.load(open(ip)):
+            stem = os.path.basename(fl)[:-3]
+            nm = f'src_{grp}_{stem}_' + (cls + '_' if cls else '') + ('attrs' if fn == '<attrs>' else fn.strip('_'))
+            if fn == '<attrs>':
+                o.item(nm, 'List (List Nat)', (lambda fl=fl, cls=cls: attrs(fl, cls)), '[]')
+            else:
+                o.item(nm, 'List (List Nat)', (lambda fl=fl, cls=cls, fn=fn: body(fl, cls, fn)), '[]')
 
 
 EXTRA.append(_srcsnap)
